@@ -64,7 +64,7 @@ def _cursor_of(fw, maxcol):
     return both(sel, has, neg(mk_bool(cc.isnone))), cc.val
 
 
-@contract(LBX + "ListBox.make_cursor_visible", property=("C07", "C08"), replayable=False)
+@contract(LBX + "ListBox.make_cursor_visible", property="C07", replayable=False)
 class lb_make_cursor_visible:
     """After a key the focus widget handled: the row of the cursor it now reports is a row of the box -- the widget is
     shifted by the least amount that brings it in (cursor above the top: its row becomes row 0; below the bottom: the
@@ -194,7 +194,7 @@ def _cursor_row_bad(a, rows):
     return False
 
 
-@contract(LBX + "ListBox.change_focus", property=("C07", "C08"), replayable=False, alias="C07-scroll")
+@contract(LBX + "ListBox.change_focus", property="C07", replayable=False, alias="C07-scroll")
 class lb_change_focus_scroll:
     """What change_focus leaves in the scroll state: the walker's focus is the position asked; the offset asked -- after
     snapping a selectable target into the box (`snapped`) -- is stored as shift_focus would store it (offset >= 0 as it is,
@@ -285,11 +285,22 @@ def rows_monotone(fill, a, b):
     cur().assume(implies(both(0 <= a, a <= b, b <= Q.seq_len(fill)), f(a) <= f(b)))
 
 
+def inst(*indices):
+    """V.instantiate (the per-item facts of calculate_visible at these indices), once per path and index term (z3 terms are
+    hash-consed and stay referenced by the path condition: get_id() identifies the term)."""
+    done = cur().ghost.setdefault("C07_keys_inst", set())
+    for j in indices:
+        k = V._z(j).get_id()
+        if k not in done:
+            done.add(k)
+            V.instantiate(j)
+
+
 def listed_hints(fill, i):
     """Ground instances for listed item i: the per-item facts of calculate_visible at i and at the outermost item, and the
     monotonicity of the row sums around i (lemma prefix-sum-monotone)."""
     n = Q.seq_len(fill)
-    V.instantiate(i, n - 1)
+    inst(i, n - 1)
     rows_monotone(fill, 0, i)
     rows_monotone(fill, i + 1, n - 1)
     rows_monotone(fill, i + 1, n)
@@ -330,7 +341,7 @@ def _up_loop_listed(v):
     vis = Vis()
     i, n = v.i_, vis.na
     q = V.arbitrary("up.q")
-    V.instantiate(q, i - 1)
+    inst(q, i - 1)
     listed_hints(vis.above, i)
     last = Q.seq_get(vis.above, imax(i - 1, 0))
     yield "offset-of-the-item-reached", v.row_offset == vis.off - vis.A(i)
@@ -540,7 +551,7 @@ def _down_loop_listed(v):
     vis = Vis()
     i = v.i_
     q = V.arbitrary("down.q")
-    V.instantiate(q, i - 1)
+    inst(q, i - 1)
     listed_hints(vis.below, i)
     last = Q.seq_get(vis.below, imax(i - 1, 0))
     yield "offset-of-the-item-reached", v.row_offset == vis.off + vis.frows + vis.B(i)
@@ -1034,3 +1045,19 @@ class lb_ends_visible_empty:
     def ensures(old, s, a, result):
         r = result.seq if isinstance(result, Q.LRef) else result
         yield "top-and-bottom", both(Q.seq_len(r) == 2, Q.seq_get(r, 0) == "top", Q.seq_get(r, 1) == "bottom")
+
+
+# ------------------------------------------------------------------------------------------------ frames (static)
+# The attributes of `self` each body assigns are within its contract's `modifies`, and the methods of `self` it calls are the
+# ones listed (whose own frames are within it: shift_focus / change_focus write offset_rows, inset_fraction (and pref_col);
+# _invalidate drops cached canvases only; calculate_visible and get_focus_offset_inset write nothing under these `requires`).
+_KEYPROCS = ("calculate_visible", "change_focus", "shift_focus", "_invalidate")
+lb_keypress_up.static_checks = [_writes_within(LBX + "ListBox._keypress_up", (), _KEYPROCS)]
+lb_keypress_down.static_checks = [_writes_within(LBX + "ListBox._keypress_down", (), _KEYPROCS)]
+# (`self.focus_position = p` is the property whose setter is set_focus: it writes set_focus_pending; set_focus_valign writes
+# set_focus_valign_pending -- both inlined and within `modifies`)
+lb_keypress_max_left.static_checks = [_writes_within(LBX + "ListBox._keypress_max_left", ("focus_position",), ("set_focus_valign",))]
+lb_keypress_max_right.static_checks = [_writes_within(LBX + "ListBox._keypress_max_right", ("focus_position",), ("set_focus_valign",))]
+lb_keypress.static_checks = [_writes_within(LBX + "ListBox.keypress", (), ("_set_focus_complete", "make_cursor_visible", "_keypress_up", "_keypress_down", "_keypress_page_up", "_keypress_page_down",
+                                                                             "_keypress_max_left", "_keypress_max_right"))]
+lb_change_focus_scroll.static_checks = [_writes_within(LBX + "ListBox.change_focus", lb_change_focus_scroll.modifies, ("update_pref_col_from_focus", "_invalidate"))]
